@@ -41,14 +41,15 @@ def harness_deps():
             glob.glob(os.path.join(VERIF, "shim", "*.h")))
 
 
-def compile_obj(src, san):
+def compile_obj(src, san, defs=()):
     os.makedirs(BUILD, exist_ok=True)
-    obj = os.path.join(BUILD, os.path.basename(src).rsplit(".", 1)[0] + "." + san + ".o")
+    tag = san + ("-" + hashlib.sha256(" ".join(defs).encode()).hexdigest()[:6] if defs else "")
+    obj = os.path.join(BUILD, os.path.basename(src).rsplit(".", 1)[0] + "." + tag + ".o")
     srcp = os.path.join(VERIF, src)
     if newer(obj, [srcp] + harness_deps()):
         comp = CXX if src.endswith(".cpp") else ["clang", "-O1", "-g", "-fno-omit-frame-pointer", "-I" + VERIF, "-I" + os.path.join(VERIF, "adapters")]
         tmp = obj + ".%d.tmp" % os.getpid()
-        B.run(comp + SANMAP[san] + ["-c", srcp, "-o", tmp])
+        B.run(comp + SANMAP[san] + list(defs) + ["-c", srcp, "-o", tmp])
         os.replace(tmp, obj)
     return obj
 
@@ -58,8 +59,8 @@ def all_objects():
     for pid, p in PROPS.items():
         for b in p["binaries"].values():
             for src in b.get("src", []):
-                out.append((src, b.get("san", "asan")))
-    out.append(("tools/hashmerge.cpp", "plain"))
+                out.append((src, b.get("san", "asan"), tuple(b.get("defs", ()))))
+    out.append(("tools/hashmerge.cpp", "plain", ()))
     return sorted(set(out))
 
 
@@ -86,7 +87,7 @@ def link(scr, name, b):
         return [interp, os.path.join(VERIF, b["script"])]
     san = b.get("san", "asan")
     with cf.ThreadPoolExecutor(max_workers=8) as ex:
-        objs = list(ex.map(lambda s: compile_obj(s, san), b["src"]))
+        objs = list(ex.map(lambda s: compile_obj(s, san, tuple(b.get("defs", ()))), b["src"]))
     vobjs = [scr.objs[v] for v in b.get("variants", [])]
     exe = os.path.join(scr.dir, name)
     B.run(["clang++"] + SANMAP[san] + ["-o", exe] + objs + vobjs + b.get("libs", ["-lrapidcheck", "-lidn2"]) + ["-lpthread"])
@@ -368,7 +369,8 @@ def main():
                     infra.append("stage %s worker %d: generator health check failed: %s" % (st["name"], r["worker"], "; ".join(d["notes"])[-400:]))
                 for f in d["failures"]:
                     f = dict(f)
-                    f["binary"] = st.get("binary")
+                    # an oracle failure found by a fuzz stage carries the property's own case: replayed by the default binary
+                    f["binary"] = None if (st.get("kind") == "fuzz" and not f["case"].startswith("fuzz=")) else st.get("binary")
                     f["stage"] = st["name"]
                     violations.append(f)
                 if r["rc"] not in (0, 3) and not d["failures"]:
